@@ -183,7 +183,7 @@ def module_name_form(t):
 
 def rule_module_callback(rep: Report, repo: Repo, rule: str) -> None:
     from ..listener import model
-    from ..absint import show
+    from ..absint import show, const
     rep.rule(rule, "the module callback takes the name from the first cleaned line after removing '@module' and the body from the "
                    "remaining lines, and appends exactly one module entry")
     lm = model(repo)
@@ -195,6 +195,10 @@ def rule_module_callback(rep: Report, repo: Repo, rule: str) -> None:
             if e[0] == "push" and e[1] == lm.entries:
                 ob = st.obj(e[2])
                 nm, doc = show(ob["fields"]["name"]), show(ob["fields"]["doc"])
+                if ob["fields"]["name"] == const("") and len(lm.rows("MODULE", "-")) > 1:
+                    # the path on which no name was found (e.g. the pattern did not match): judged on the other paths
+                    rep.ok(rule, f"cminx.aggregator:{lm.cls}.enterDocumented_module", "nameless path: name = ''")
+                    continue
                 verdict, why = module_name_form(ob["fields"]["name"])
                 if verdict is None:
                     raise AnalysisError(f"enterDocumented_module: unrecognised computation of the module name: {nm[:120]}")
